@@ -235,6 +235,23 @@ func (e *daemonEngine) runDKGSteps(res *RunResult) {
 				switch st.S {
 				case "reshare_ok":
 					mustFail = !inGroup
+				case "reshare_ok_leaver":
+					// a legal proposal in which the last member (not the proposer) leaves
+					mustFail = !inGroup
+					pt := cc.epochs[len(cc.epochs)-1].group.Threshold
+					if k := len(opts.Remaining); k-1 >= pt && k >= 3 {
+						last := opts.Remaining[k-1]
+						if last.Address == n.addr {
+							last = opts.Remaining[k-2]
+							opts.Remaining = append(opts.Remaining[:k-2], opts.Remaining[k-1])
+						} else {
+							opts.Remaining = opts.Remaining[:k-1]
+						}
+						opts.Leaving = []*pdkg.Participant{last}
+						if int(opts.Threshold) > len(opts.Remaining) {
+							opts.Threshold = uint32(len(opts.Remaining))
+						}
+					}
 				case "reshare_low_threshold":
 					opts.Threshold = 1
 					mustFail = len(members) > 1
@@ -287,7 +304,7 @@ func (e *daemonEngine) runDKGSteps(res *RunResult) {
 					}
 				}
 				err = e.cmd(n, id, &pdkg.DKGCommand{Command: &pdkg.DKGCommand_Resharing{Resharing: opts}})
-				if err == nil && st.S == "reshare_ok" {
+				if err == nil && (st.S == "reshare_ok" || st.S == "reshare_ok_leaver") {
 					// leave it pending for the following steps (accepts, aborts, forgeries), then abort
 					e.pendingLeader = n
 				}
